@@ -124,4 +124,13 @@ CHECKS = {
         note=COMMON_NOTE,
         technique="TLA+ byte-level decode semantics + TLC BFS case enumeration, replayed into TensorFromProto and NewModelFromBytes+Run; defect model for the known finding",
         design_ref="DESIGN.md section 6 (C12)"),
+    "C13": dict(
+        text="Bounded-exhaustive: spec/Signature.tla defines the acceptance predicate of Run (presence, rank, fixed dimensions; inputs "
+             "shadowed by initializers not required) and spec/RunSem.tla the functional meaning of Run; TLC enumerates declared signatures "
+             "x supplied tensor sets and computes accept (with the expected outputs) or reject (with the acceptable error classes "
+             "InvalidShape / model error); each case is a real model loaded from bytes and run, with snapshots of all caller tensors and "
+             "weights around the call.",
+        note=COMMON_NOTE,
+        technique="TLA+ Signature/RunSem specification + TLC BFS case enumeration, replayed into NewModelFromBytes + Run",
+        design_ref="DESIGN.md section 6 (C13)"),
 }
